@@ -425,6 +425,29 @@ static std::vector<Outcome> run_roundtrip(const EvalSpec& e) {
     }
     check_ub();
     if (failed()) break;
+    // clause: the bytes do not depend on whether anybody asked for the size first: an
+    // identical value built afresh (no size cache filled in yet) is serialized directly
+    for (int how = 0; how < 2; how++) {
+      // (not make_value(): that one measures the value to bound its size, which fills the caches)
+      void* fresh = t.create();
+      { Rng fr(e.vseed); t.gen(fr, fresh, used_budget, depth_for(used_budget)); }
+      std::string s3;
+      bool ok;
+      if (how == 0) ok = t.ser_string(fresh, s3);
+      else {
+        ChunkedOutput co(0, r.next());
+        { CodedOutputStream cos(&co); ok = t.ser_coded(fresh, cos); }
+        co.flush();
+        s3 = co.out;
+      }
+      t.destroy(fresh);
+      if (!ok || s3 != s) {
+        fail("roundtrip", fam + "/serialize-unsized", "%s: %s on a freshly built value whose size was never computed %s (%zu bytes, %zu after calculate_serialized_size)",
+             t.name.c_str(), how == 0 ? "serialize_to_string" : "serialize_to_coded_stream", ok ? "produced different bytes" : "failed", s3.size(), s.size());
+        break;
+      }
+    }
+    if (failed()) break;
     // clause: serialization is a function of the value (second pass, cached sizes recomputed)
     {
       std::string s2;
